@@ -31,8 +31,16 @@ class DB:
             for f in d["fns"]:
                 self.fns[f["path"]] = f
                 self.fn_crate[f["path"]] = crate
+            ast = {x["path"]: x for x in d.get("ast_attrs", [])}
             for a in d["adts"]:
                 a["crate"] = crate
+                x = ast.get(a["path"])
+                a["ast_seen"] = x is not None
+                a["ast_attrs"] = x["attrs"] if x else []
+                fa = {f["name"]: f["attrs"] for f in x["fields"]} if x else {}
+                for v in a["variants"]:
+                    for f in v["fields"]:
+                        f["ast_attrs"] = fa.get(f["name"], [])
                 self.adts[a["path"]] = a
             for i in d["impls"]:
                 i["crate"] = crate
